@@ -234,7 +234,8 @@ def log_obs(lc):
 def observe_one(desc, perm, with_asm):
     from fim.authz.attribute_collector import ResourceAuthZAttributes
     from fim.logging.log_collector import LogCollector
-    out = {'snap': None, 'validate': None, 'attrs': None, 'pdp': None, 'log': None, 'asm': None, 'asm_log': None, 'ops': None}
+    out = {'snap': None, 'validate': None, 'attrs': None, 'pdp': None, 'log': None, 'asm': None, 'asm_log': None, 'ops': None,
+           'asm_raw': None, 'late_validate': None}
     try:
         t, svcs = build(desc, perm)
     except Exception as e:
@@ -305,19 +306,37 @@ def observe_one(desc, perm, with_asm):
         out['log'] = {'err': type(e).__name__}
     if with_asm and desc['mode'] == 'topo':
         from fim.graph.slices.networkx_asm import NetworkXGraphImporter, NetworkXASMFactory
-        try:
+
+        def from_asm():
             ser = t.serialize()
             pg = NetworkXGraphImporter().import_graph_from_string(graph_string=ser)
             asm = NetworkXASMFactory.create(pg)
             az2 = ResourceAuthZAttributes()
             az2.collect_resource_attributes(source=asm)
             apply_extras(az2, desc['extras'])
-            out['asm'] = canon_attrs(attrs_list(az2))
             lc2 = LogCollector()
             lc2.collect_resource_attributes(source=asm)
-            out['asm_log'] = canon_log(log_obs(lc2))
-        except Exception as e:
-            out['asm'] = {'err': type(e).__name__}
+            return attrs_list(az2), canon_log(log_obs(lc2))
+        if desc['validate']:
+            try:
+                al, lg = from_asm()
+                out['asm'] = canon_attrs(al)
+                out['asm_log'] = lg
+            except Exception as e:
+                out['asm'] = {'err': type(e).__name__}
+        else:
+            # topology never validated: the ASM path validates its reloaded copy itself (sites of services inferred
+            # there).  Judged by the oracle only (the model is not given the inferred sites).
+            try:
+                al, lg = from_asm()
+                out['asm_raw'] = al
+            except Exception as e:
+                out['asm_raw'] = {'err': type(e).__name__}
+            try:
+                t.validate()
+                out['late_validate'] = 'ok'
+            except Exception as e:
+                out['late_validate'] = type(e).__name__
     return out
 
 
@@ -550,7 +569,7 @@ def check_pdp(attrs, pdp, flags):
     return None
 
 
-def check_authz(desc, o):
+def check_authz(desc, o, with_pdp=True):
     """property over one observed build; returns None or what fails"""
     a = o['attrs']
     if isinstance(a, dict):
@@ -594,7 +613,7 @@ def check_authz(desc, o):
     extra_keys = set(am) - set(U[f] for f in ('type', 'cpu', 'ram', 'disk', 'bw', 'component', 'facility', 'site') + SPECIAL) - set(xe)
     if extra_keys:
         return 'spurious attribute ids %r' % sorted(extra_keys)
-    return check_pdp(a, o['pdp'], desc['flags'])
+    return check_pdp(a, o['pdp'], desc['flags']) if with_pdp else None
 
 
 def check_log(desc, o):
@@ -888,7 +907,7 @@ class Slices(Stream):
         self.cache = {}       # case hash -> observation computed by a worker process
 
     def gen(self, rng, tier):
-        n = int(os.environ.get('C11_N') or (40 if tier == 'quick' else 180))
+        n = int(os.environ.get('C11_N') or (40 if tier == 'quick' else 150))
         out = []
         for i in range(n):
             d = gen_desc(rng, big=(tier == 'thorough' and i % 5 == 0), mirror_heavy=(i % 3 == 0))
@@ -896,7 +915,7 @@ class Slices(Stream):
             for j, p in enumerate(perms):
                 c = copy.deepcopy(d)
                 c['perm'] = p
-                c['asm'] = bool(d['validate'] and j in (0, len(perms) - 1))
+                c['asm'] = bool(j in (0, len(perms) - 1))
                 out.append(c)
             if i % 4 == 0:
                 out.append(gen_parts(d, rng))
@@ -952,6 +971,12 @@ class Slices(Stream):
                 return 'attributes collected from the serialized model differ from those of the topology object'
             if o['asm_log'] is not None and o['asm_log'] != canon_log(o['log']):
                 return 'accounting summary collected from the serialized model differs'
+        if o.get('asm_raw') is not None and o.get('late_validate') == 'ok':
+            if isinstance(o['asm_raw'], dict):
+                return 'collection from the serialized model of a valid (not yet validated) slice raised %s' % o['asm_raw']['err']
+            w = check_authz(case, {'attrs': o['asm_raw'], 'validate': 'ok', 'pdp': None}, with_pdp=False)
+            if w:
+                return 'collected from the serialized model (which validates its copy): ' + w
         if case['perm'] != identity_perm(case):
             b = self.base_obs(case)
             if canon_attrs(o['attrs']) != canon_attrs(b['attrs']):
@@ -977,7 +1002,7 @@ class Slices(Stream):
         for c, o in zip(cases, obs):
             h['builds'] += 1
             h['mode_' + c['mode']] += 1
-            h['asm_collections'] += 1 if o['asm'] is not None else 0
+            h['asm_collections'] += 1 if (o['asm'] is not None or o.get('asm_raw') is not None) else 0
             h['order_identity' if c['perm'] == identity_perm(c) else 'order_permuted'] += 1
             h['validated'] += 1 if c['validate'] else 0
             h['validate_rejected'] += 1 if (c['validate'] and o['validate'] != 'ok') else 0
